@@ -164,12 +164,16 @@ def make_chars_from(spec):
     return mk
 
 def run_sharded(run, prog, specs, label, keyprefix='c03', shards=48):
-    """phase 1 (parent): explore each spec until enough open prefixes exist; phase 2: the open prefixes are distributed over the workers"""
+    """phase 1 (pooled, one job per spec): explore the spec until enough open prefixes exist; phase 2: the open prefixes of all specs are distributed over the workers"""
     from vf import par
     import time as _t
     t0 = _t.time(); tasks = []
-    for spec in specs:
+    def first(spec):
         S = lexer_job(prog, make_chars_from(spec), run.deadline, seed=run.seed, label=str(spec), keyprefix=keyprefix, stop_at_stack=shards)
+        return spec, S
+    for st, r in par.pmap_unordered(first, specs):
+        if st != 'ok': run.note_inconclusive(f'{label}: job crashed: {r[:300]}'); continue
+        spec, S = r
         rest = S.pop('rest', [])
         run.merge(S)
         k = max(1, min(shards, len(rest)))
